@@ -37,7 +37,12 @@ func (batch *Batch) ApplyDiff(d *dbdiff.Entry) {
 
 func (rdb *RDB) ApplyDiff(r io.Reader, serial uint32) error {
 	codec := initCodec(serial)
-	codec.Features.UseV2Keys = rdb.IsV2KeySyntaxUsed()
+	useV2Keys, err := rdb.v2KeySyntaxUsed()
+	if err != nil {
+		// guessing v1 keys here would write the diff under keys no reader looks up
+		return fmt.Errorf("cannot tell the key syntax of the database: %w", err)
+	}
+	codec.Features.UseV2Keys = useV2Keys
 	batch := rdb.CreateBatch()
 	scanner := bufio.NewScanner(r)
 	for scanner.Scan() {
